@@ -16,6 +16,18 @@ CHECKS = {
             'Theorems C19_inv / C19_exact / C19_bounded / C19_autoclose prove for every history of create / finish / restart / active_children / autoclose operations that the registry has no duplicates and contains every live worker, so active_children() yields exactly the live workers once each and retains nothing dead afterwards. Every run replays seeded histories (up to 300 operations, thread-heavy, some process workers) on real workers and on the compiled model and compares yielded sets and registry sizes, and checks the property directly against is_alive() of every created worker.',
             'Trusted: Lean kernel + standard axioms, the harness; registry operations are atomic under Worker._children_lock (stress-probed with concurrent readers); autoclose theorem is about cooperative workers (uncooperative ones are C04).',
             '§7 C19'),
+    'C13': ('Lean 4 proof (list induction for the MRO rule; complete finite table for the reducer choice) + correspondence with the real metaclass and byte-level comparison with pickle',
+            'C13_mro_spec proves, for MROs of any length, that the metaclass check equals its declarative reading (Warning iff a plain __getstate__ shadows a remote-aware one; opt-in iff no class defines a reduce method and some class is remote-aware); C13_nonoptin_same / C13_remote_false / C13_flag_only_optin / C13_std_unaffected decide the complete feature table of the reducer choice. Each run feeds generated class hierarchies (chains, diamonds) to the real issubclass check and to the model, and requires remote_pickle.dumps of generated non-opt-in graphs and a menu of stdlib values to be byte-identical to pickle.dumps for protocols 2-5 and both flags.',
+            'Trusted: Lean kernel + standard axioms; CPython pickle itself (traversal, lookup order) is trusted, the reducer-choice model mirrors its documented order; harness generators.',
+            '§7 C13'),
+    'C14': ('Lean 4 proof (mutual structural induction over object graphs, invariant over hook events) + correspondence on generated graphs; known finding for opt-in siblings',
+            'The frame stack of state.py is modelled as it is. C14_loads_partial proves for graphs of any size and shape in which no opt-in object names more than one opt-in direct child that a load never trips an assertion, leaves the stack empty, and hands every opt-in object exactly its own remote state; C14_counterexample_siblings/_cycle and C14_full_false prove that the full statement fails (two opt-in siblings), which the harness reproduces on the real code and reports as KNOWN-FINDING. Each run compares model and real loads on enumerated shapes and random graphs (sharing, cycles, dict/non-dict state, with/without __setstate__, marker/duck-typed) and checks once-only remote __getstate__, restoration and graph shape.',
+            'Partial: proof covers the loadable class only; the dumps side (memo: one reduce per object) and the hook order are CPython behaviour, exercised by every case, not proved. Known finding: >= 2 opt-in direct children -> AssertionError.',
+            '§7 C14'),
+    'C15': ('Lean 4 proof (independence, top-level delivery, counterexamples by kernel evaluation) + correspondence on generated graphs x patches, failing-load sequences and threads; known findings for positional delivery',
+            'C15_independent: a load does not depend on residue of earlier loads (context.__init__ overwrites the per-thread fields); C15_top_only: an opt-in top-level object without opt-in descendants receives exactly the patches, for any patches and fields; C15_counterexample / C15_delivery_false / C15_counterexample_exit prove that delivery is positional in the current code. Each run compares the model with real loads over graphs x nested patch dicts, checks the property on every reachable object, replays failing loads (truncated stream, raising __setstate__, assertion) followed by normal loads on one thread, and runs 4 threads concurrently.',
+            'Partial: the delivery clause is false for non-chain graphs (two KNOWN-FINDING classes); the general chain-delivery theorem is not proved yet (chains are covered by correspondence only). threading.local semantics trusted.',
+            '§7 C15'),
 }
 NOT_YET = 'check not built yet in this session (work in progress; see DESIGN.md §13 for the order)'
 
